@@ -3,14 +3,14 @@ prop("C08",
                 "choices and plans: multi_alloc_success (k = number of range lists >= 1, pairwise disjoint, key owns nothing "
                 "inside them: exactly k results, result[i] in ranges[i], previously free, in a pool listing the node subnet, "
                 "no stored object, pairwise distinct, recorded in memory and store, every other address untouched, "
-                "ByKeyAndIPRanges returns them in request order), multi_alloc_failure (any error return incl. not-enough, "
-                "store conflict, injected fault: alloc, free, pools unchanged and store unchanged as a map), "
-                "multi_alloc_failure_single_fault (every single fault index on quiet Agree states), fact_rollback, "
-                "multi_alloc_failure_counter. IPAM level; the binding-annotation clause is model M4's.",
-     level_note="multi_alloc_failure needs: no injected fault at all, or a single fault and no free address with a stored object; "
-                "otherwise a fault on a rollback delete (ignored by the code) leaks an object: counter theorem, C05 known "
-                "finding rollback-delete-fault-leaks-object. The c08 harness injects create faults only (the property's "
-                "quantifier).",
+                "ByKeyAndIPRanges returns them in request order), multi_alloc_failure (error return with successful rollback — "
+                "no injected fault, or a single fault and no free address with a stored object: alloc, free, pools unchanged, "
+                "store unchanged as a map), multi_alloc_failure_general (ANY fault set: every address is untouched or, its "
+                "rollback delete having failed, allocated to the key in BOTH memory and store), "
+                "multi_alloc_failure_single_fault, fact_rollback, multi_alloc_failure_counter (pre-fix shape). IPAM level; the "
+                "binding-annotation clause is model M4's.",
+     level_note="Full on the model. The c08 harness injects a fault at every call index (creates and rollback deletes) and checks "
+                "both clauses on the real code.",
      technique="Lean 4 theorems over an executable model + regenerated structural facts (factgen ipam) + differential "
                "correspondence; monitor = the C08 statement evaluated on the real AllocateInSubnetsAndIPRange outputs with a "
                "failing create at every index, partially pre-owned ranges and undelivered admin reservations",
